@@ -597,7 +597,12 @@ static void case_c15(const drvargs_t *a,long id){
   char desc[500]; snprintf(desc,sizeof desc,"entry=%s ch=%d rate=%ld q=%g br=%ld/%ld/%ld ctl:",entry==0?"setup_vbr":entry==1?"setup_managed":entry==2?"init":"init_vbr",ch,rate,(double)q,bmax,bnom,bmin);
   vorbis_info vi; vorbis_info_init(&vi);
   int ret;
+  /* "any sequence of control requests": requests may also come before the set-up call, instead of it, or after it was refused (the three-step calls do not clear a refused info) */
+  int early= entry<2 && id%7==2, nosetup= early && rng_chance(&r,0.5);
+  if(early){ c15_ctl_script(&vi,&r,1+(int)rng_below(&r,5),"before the set-up call",desc,sizeof desc); res_count("ctl_scripts_before_the_setup_call",1); }
+  if(nosetup){ ch=vi.channels; rate=vi.rate; entry=4; strncat(desc," [no set-up call]",sizeof desc-strlen(desc)-1); }
   switch(entry){
+  case 4: ret=0; res_count("setup_init_without_a_setup_call",1); break;
   case 0: ret=vorbis_encode_setup_vbr(&vi,ch,rate,q); break;
   case 1: ret=vorbis_encode_setup_managed(&vi,ch,rate,bmax,bnom,bmin); break;
   case 2: ret=vorbis_encode_init(&vi,ch,rate,bmax,bnom,bmin); break;
@@ -607,12 +612,15 @@ static void case_c15(const drvargs_t *a,long id){
   if(!ret_ok15(ret)) res_viol("C15","setup-return-domain","%d: %s",ret,desc);
   int ok=(ret==0);
   if(ret && entry>=2 && !all_zero(&vi,sizeof vi)) res_viol("C15","one-step-failure-leaves-info-set","ret %d but vorbis_info not cleared: %s",ret,desc);
-  if(ok && entry<2){
-    c15_ctl_script(&vi,&r,(int)rng_below(&r,7),"before setup_init",desc,sizeof desc);
+  int carry= !ok && entry<2 && rng_chance(&r,0.5);   /* the application ignores the refusal and carries on */
+  if(carry) res_count("carried_on_after_a_refused_setup_call",1);
+  if((ok && (entry<2||entry==4)) || carry){
+    c15_ctl_script(&vi,&r,(int)rng_below(&r,7)+(carry||entry==4),"before setup_init",desc,sizeof desc);
     ret=vorbis_encode_setup_init(&vi); res_eval(1);
     if(!ret_ok15(ret)) res_viol("C15","setup-init-return-domain","%d: %s",ret,desc);
     if(ret) ok=0;
-    else c15_ctl_script(&vi,&r,(int)rng_below(&r,5),"after setup_init",desc,sizeof desc);
+    else { ok=1; if(carry) res_count("setup_init_accepted_after_a_refused_setup_call",1); if(entry==4) res_count("setup_init_accepted_without_a_setup_call",1);
+      c15_ctl_script(&vi,&r,(int)rng_below(&r,5),"after setup_init",desc,sizeof desc); }
   } else if(ok){
     c15_ctl_script(&vi,&r,(int)rng_below(&r,4),"after setup_init",desc,sizeof desc);
   }
@@ -655,9 +663,9 @@ static void case_c15(const drvargs_t *a,long id){
         vorbis_block_clear(&vb); vorbis_dsp_clear(&vd); vorbis_comment_clear(&vc);
       }
     }
-    res_bucket("ok|%s|ch%s|band%d",entry==0?"setup_vbr":entry==1?"setup_managed":entry==2?"init":"init_vbr",ch==1?"1":ch==2?"2":ch<=8?"3-8":"9+",rate_band(rate));
+    res_bucket("ok|%s%s|ch%s|band%d",entry==4?"ctl_only":entry==0?"setup_vbr":entry==1?"setup_managed":entry==2?"init":"init_vbr",carry?"+carried-on":early?"+early-ctl":"",ch==1?"1":ch==2?"2":ch<=8?"3-8":"9+",rate_band(rate));
   } else {
-    res_bucket("refused%d|%s|ch%s|rate%s",ret,entry==0?"setup_vbr":entry==1?"setup_managed":entry==2?"init":"init_vbr",ch<1?"<1":ch>255?">255":"ok",rate<8000?"<8k":rate>200000?">200k":"ok");
+    res_bucket("refused%d|%s%s|ch%s|rate%s",ret,entry==4?"ctl_only":entry==0?"setup_vbr":entry==1?"setup_managed":entry==2?"init":"init_vbr",carry?"+carried-on":early?"+early-ctl":"",ch<1?"<1":ch>255?">255":"ok",rate<8000?"<8k":rate>200000?">200k":"ok");
   }
   vorbis_info_clear(&vi);
   if(!all_zero(&vi,sizeof vi)) res_viol("C15","info-not-zero-after-clear","%s",desc);
